@@ -1,4 +1,4 @@
-/- Shared helpers for the model driver (line protocol parsing). -/
+/- Shared helpers for the per-property model drivers (line protocol). -/
 namespace Scryer.Drv
 
 def fields (line : String) : List String := line.splitOn "\t"
@@ -8,5 +8,45 @@ def words (s : String) : List String := (s.splitOn " ").filter (· ≠ "")
 def parseInt? (s : String) : Option Int :=
   if s.startsWith "-" then (s.drop 1).toNat?.map (fun n => -(n : Int))
   else s.toNat?.map (fun n => (n : Int))
+
+def stripEol (s : String) : String :=
+  String.ofList ((s.toList.reverse.dropWhile (fun c => c == '\n' || c == '\r')).reverse)
+
+/-- undo the harness escaping (`\n`, `\t`, `\r`, `\\`). -/
+def unescape (s : String) : String :=
+  let rec go : List Char → List Char → List Char
+    | [], acc => acc.reverse
+    | '\\' :: 'n' :: r, acc => go r ('\n' :: acc)
+    | '\\' :: 't' :: r, acc => go r ('\t' :: acc)
+    | '\\' :: 'r' :: r, acc => go r ('\r' :: acc)
+    | '\\' :: '\\' :: r, acc => go r ('\\' :: acc)
+    | c :: r, acc => go r (c :: acc)
+  String.ofList (go s.toList [])
+
+def escape (s : String) : String :=
+  String.ofList (s.toList.flatMap fun c =>
+    match c with
+    | '\n' => ['\\', 'n'] | '\t' => ['\\', 't'] | '\r' => ['\\', 'r'] | '\\' => ['\\', '\\']
+    | c => [c])
+
+partial def loop (handle : String → String) (h out : IO.FS.Stream) : IO Unit := do
+  let line ← h.getLine
+  if line.isEmpty then return ()
+  let l := stripEol line
+  if l.isEmpty || l.startsWith "#" then
+    loop handle h out
+  else
+    out.putStrLn (handle l)
+    loop handle h out
+
+/-- one operation per line on stdin (TAB separated: op, id, args…); one result line
+    `<id>\t<result>` on stdout. `handle` receives the fields and returns the result. -/
+def runDriver (handle : List String → String) : IO Unit := do
+  let out ← IO.getStdout
+  loop (fun l =>
+    match fields l with
+    | op :: id :: args => s!"{id}\t{handle (op :: id :: args)}"
+    | _ => "?\tbad-op") (← IO.getStdin) out
+  out.flush
 
 end Scryer.Drv
